@@ -53,6 +53,8 @@ def op_expr(o):
         return 'SetDriverHb %s' % z(a[0])
     if n == 'hc':
         return 'SetHbCounter %s' % z(a[0])
+    if n == 'rf':
+        return 'SetRingFull %s' % ('true' if a[0] else 'false')
     if n == 'w':
         return 'DoWork BNone'
     if n == 'wl':
@@ -136,6 +138,7 @@ class Sim:
         self.ops = []
         self.img = 1000 + rng.randrange(0, 50)
         self.close_sent = False
+        self.full = False
 
     # -- helpers
     def ids(self, kind=None, state=None, held=None):
@@ -177,6 +180,8 @@ class Sim:
             return None
         i = self.next
         self.next += 1
+        if self.full:
+            return None         # the id is used up, the command refused
         self.regs[i] = {'kind': k, 'state': 'await', 'held': False, 'images': [], 't0': self.now, 'obj': False}
         return i
 
@@ -205,7 +210,7 @@ class Sim:
         if reg and reg['kind'] == k and reg['held']:
             if not self.closed:
                 self.next += 1
-            del self.regs[i]
+            del self.regs[i]        # (a publication / counter dropped while the ring is full stays registered with a dead handle)
 
     def peek(self, i, k=None):
         k = k or (self.regs[i]['kind'] if i in self.regs else self.rng.choice('psc'))
@@ -216,6 +221,10 @@ class Sim:
     def tick(self, d):
         self.emit('tk', d)
         self.now += d
+
+    def ring(self, full):
+        self.emit('rf', 1 if full else 0)
+        self.full = full
 
     def heartbeat(self, t=None):
         self.hb = self.now if t is None else t
@@ -393,10 +402,27 @@ def gen_history(rng, tier, flavour):
                 s.work(ev=['ct', c0 if rng.random() < 0.6 else s.unknown_id()])
             elif q < 0.7:
                 s.close()
-            elif q < 0.8:
-                s.emit('hc', 2)
-                s.hbenv = 2
-            elif q < 0.9:
+            elif q < 0.74:
+                v = rng.choice([2, 3, 4, 3])
+                s.emit('hc', v)
+                s.hbenv = v
+            elif q < 0.82:
+                # the driver stops reading its command ring; the client goes on for a few operations
+                s.ring(True)
+                for _ in range(rng.randrange(1, 5)):
+                    held = s.ids(held=True)
+                    qq = rng.random()
+                    if held and qq < 0.6:
+                        s.drop(rng.choice(held))
+                    elif qq < 0.8:
+                        s.add(rng.choice(kinds))
+                    elif qq < 0.9:
+                        s.close()
+                    elif s.regs:
+                        s.find(rng.choice(list(s.regs)))
+                if rng.random() < 0.7:
+                    s.ring(False)
+            elif q < 0.91:
                 s.heartbeat(rng.choice([-1, 0, s.now - tdrv - 1, s.now - tdrv, s.now]))
             else:
                 s.tick(rng.choice([tis + 1, 2 * tis]))
@@ -466,6 +492,17 @@ def scripted():
     h('heartbeat-lost', 'hb 1000000; hc 1; as 1 1; tk 501; w; we sr 1 6; fs 1; hc 2; tk 501; w; fs 1; ps 1; tk 501; w')
     h('counter-limits', 'hb 1000000; ac 1 112 10; ac 1 113 10; ac 1 0 381; ac 1 0 380; fc 1; fc 2')
     h('unavailable-counter-event-and-close-in-one-cycle', 'hb 1000000; ac 0 0 64; we cr 1 43; tk 9999; hb 1009999; we uc 4 58', cfg=(0, 1000000, 10000, 1000))
+    h('ring-full-drop-subscription-with-images',
+      'hb 1000000; as 1 1; we sr 1 6; fs 1; we ai 50 1 2 1; we ai 51 1 3 1; rf 1; ds 1; rf 0; fs 1; cl')
+    h('ring-full-drop-then-client-timeout', 'hb 1000000; as 1 1; we sr 1 6; fs 1; we ai 50 1 2 1; rf 1; ds 1; we ct 0; fs 1')
+    h('ring-full-drop-publication-counter',
+      'hb 1000000; ap 1 1; ac 1 2 3; we pr 1 1 1 5 3 4; we cr 2 9; fp 1; fc 2; rf 1; dp 1; dc 2; fp 1; fc 2; rf 0; fp 1; fc 2; we er 1 3; fp 1; cl')
+    h('ring-full-add-and-close', 'hb 1000000; ap 1 1; rf 1; ap 2 2; as 2 2; ac 1 1 1; ad 0 1 1; fp 2; cl; rf 0; cl; ap 1 1')
+    h('ring-full-then-drained', 'hb 1000000; rf 1; ap 1 1; rf 0; ap 1 1; fp 3; we pr 3 3 1 5 3 4; fp 3; dp 3')
+    h('heartbeat-slot-reused-other-client', 'hb 1000000; hc 1; as 1 1; tk 501; w; we sr 1 6; fs 1; hc 3; tk 501; w; fs 1; ps 1')
+    h('heartbeat-slot-reused-other-type', 'hb 1000000; hc 1; ac 1 2 3; tk 501; w; we cr 1 9; fc 1; hc 4; tk 501; w; fc 1; pc 1')
+    h('heartbeat-slot-reused-after-lapped-timeout', 'hb 1000000; hc 1; tk 501; w; wl; hc 3; tk 501; w; ap 1 1; tk 501; w')
+    h('heartbeat-slot-other-client-never-bound', 'hb 1000000; hc 3; tk 501; w; tk 501; w; hc 1; tk 501; w; hc 3; tk 501; w')
     h('client-timeout-foreign', 'hb 1000000; ap 1 1; we ct 77; fp 1; we ct 0; fp 1; we ct 0; w')
     return [conv(c) for c in H]
 
